@@ -1082,3 +1082,154 @@ theorem C17_ftpc_health_irrelevant (s : Server) (b : Backup) (pq pr k big : Bool
     cases big <;> cases hs : b.stored <;> cases hq : s.ftpConn <;> cases ha : s.ftpcAct <;> cases pq <;> cases hbs : b.serves <;> simp
 
 end Primaite.Database
+
+namespace Primaite.Database
+
+/-! ## 8. Repeated backups (round 6)
+
+What the unchanged code does: the FTP server's `_store_data` creates the file and RAISES (swallowed: the STOR is answered with
+an error) when a file of that name exists, so a backup is stored only while the backup host holds no copy for this instance;
+a further `backup_database()` reports FAILURE and leaves the stored copy - with the health of the backup that was taken -
+untouched.  (Seeded change C17-e made the second backup report success while keeping the first backup's health.)  The store
+path itself is the translated `_store_data` (`srv_stor`, `C17_tr_ftp_send_file`, `C17_tr_backup`, `C17_tr_stored_copy`). -/
+
+theorem backup_orphans (s : Server) (b : Backup) (pq big : Bool) : (backupDatabase s b pq big).2.1.orphans = b.orphans := by
+  have hb := C17_backup_stores s b pq big
+  cases hr : (backupDatabase s b pq big).2.2 with
+  | false => rw [hb.2 hr]
+  | true =>
+    unfold backupDatabase ftpSendFile at hr ⊢
+    cases hc : s.canAct <;> cases hbc : s.backupConfigured <;> cases hft : s.ftpc <;> cases hf : s.file <;> simp [hc, hbc, hft, hf] at hr ⊢
+    cases big <;> cases hs : b.stored <;> cases hq : s.ftpConn <;> cases ha : s.ftpcAct <;> cases pq <;> cases hbs : b.serves <;>
+      simp [hs, hq, ha, hbs] at hr ⊢
+
+/-- **One backup call, any state.**  A backup that reports success found no copy on the backup host and leaves exactly the
+health the database file has AT THAT MOMENT there (the database host's file untouched); a backup that does not report success
+leaves the backup host exactly as it was; and while a copy exists every backup is refused. -/
+theorem C17_backup_outcome (st : State) (big : Bool) :
+    ((step st (.backup big)).2.res = some true →
+      st.bk.stored = none ∧ (step st (.backup big)).1.bk.stored = st.srv.file ∧ st.srv.file.isSome ∧
+      (step st (.backup big)).1.srv.file = st.srv.file ∧ (step st (.backup big)).1.bk.orphans = st.bk.orphans) ∧
+    ((step st (.backup big)).2.res ≠ some true → (step st (.backup big)).1.bk = st.bk) ∧
+    (st.bk.stored.isSome → (step st (.backup big)).2.res ≠ some true) := by
+  have hb := C17_backup_stores st.srv st.bk st.ftpReq big
+  have hfr := backup_frame st.srv st.bk st.ftpReq big
+  simp only [step]
+  split
+  · exact ⟨by simp, fun _ => rfl, fun _ => by simp⟩
+  · dsimp only
+    cases hr : (backupDatabase st.srv st.bk st.ftpReq big).2.2 with
+    | true =>
+      have h1 := hb.1 hr
+      refine ⟨fun _ => ⟨h1.1, h1.2.2.2.2.2.2.2.1, h1.2.2.2.2.2.2.2.2, hfr.2.2.1, backup_orphans _ _ _ _⟩, fun h => absurd rfl h, ?_⟩
+      intro hs; rw [h1.1] at hs; cases hs
+    | false =>
+      refine ⟨?_, fun _ => hb.2 hr, ?_⟩
+      · intro h; cases h
+      · intro _ h; cases h
+
+theorem tick_stored (st : State) (big d k : Bool) :
+    (st.tick big d k).bk.stored = st.bk.stored ∨
+    (st.bk.stored = none ∧ (st.tick big d k).bk.stored = st.srv.file ∧ st.srv.file.isSome) := by
+  cases hs : st.bk.stored with
+  | some x => exact Or.inl (by rw [tick_keeps_stored st big d k x hs])
+  | none =>
+    -- the only writer inside a tick is the automatic backup (timestep 1), which runs on the file as the node's power step left it
+    have hp := tickPower_downloads st.srv
+    have key : ∀ (s : Server) (b : Backup) (t : Nat) (pq pr : Bool), b.stored = none → s.file = st.srv.file →
+        (s.tickSvc b t pq pr big k).2.stored = none ∨
+        ((s.tickSvc b t pq pr big k).2.stored = st.srv.file ∧ st.srv.file.isSome) := by
+      intro s b t pq pr hbn hf
+      unfold Server.tickSvc
+      dsimp only
+      split
+      · exact Or.inl hbn
+      · split
+        · have hb := C17_backup_stores s b pq big
+          cases hr : (backupDatabase s b pq big).2.2 with
+          | true => have h1 := hb.1 hr; exact Or.inr ⟨by rw [h1.2.2.2.2.2.2.2.1, hf], by rw [← hf]; exact h1.2.2.2.2.2.2.2.2⟩
+          | false => left; rw [hb.2 hr]; exact hbn
+        · exact Or.inl hbn
+    have hst : (st.tick big d k).bk.stored =
+        (serverTick st.srv st.bk (st.t + 1) (st.bk.node.isOn && !st.blockFtpReq) (st.bk.node.isOn && !st.blockFtpResp && d) big k).2.stored := by
+      unfold State.tick backupTick
+      dsimp only
+      split <;> split <;> rfl
+    rw [hst]
+    unfold serverTick
+    dsimp only
+    split
+    · exact Or.inl hs
+    · split
+      · have hf := tickFtpc_frame st.srv.tickPower
+        rcases key st.srv.tickPower.tickFtpc st.bk (st.t + 1) _ _ hs (by rw [hf.2.2.1, hp.2.1]) with h | h
+        · exact Or.inl h
+        · exact Or.inr ⟨rfl, h.1, h.2⟩
+      · rcases key st.srv.tickPower st.bk (st.t + 1) _ _ hs hp.2.1 with h | h
+        · exact Or.inl h
+        · exact Or.inr ⟨rfl, h.1, h.2⟩
+
+/-- **Who writes the backup host's copy.**  For EVERY operation in EVERY state: the copy stays as it is; or it disappears
+(deleted on the backup host / the service re-installed); or there was none and a backup - explicit, or the automatic one of
+timestep 1 inside a tick - stored exactly the health the database file had when that operation began. Nothing else, and never
+over an existing copy. -/
+theorem C17_stored_written_only_by_backup (st : State) (op : Op) :
+    (step st op).1.bk.stored = st.bk.stored ∨
+    ((step st op).1.bk.stored = none ∧ (op = .bkDelete ∨ ∃ cfg, op = .svcInstall cfg)) ∨
+    (st.bk.stored = none ∧ (step st op).1.bk.stored = st.srv.file ∧ st.srv.file.isSome ∧
+      ((∃ big, op = .backup big) ∨ ∃ b d k, op = .tick b d k)) := by
+  by_cases hdel : op = .bkDelete
+  · subst hdel
+    exact Or.inr (Or.inl ⟨(C17_backup_deleted st).1, Or.inl rfl⟩)
+  by_cases hin : ∃ cfg, op = .svcInstall cfg
+  · obtain ⟨cfg, rfl⟩ := hin
+    by_cases hr : (step st (.svcInstall cfg)).2.res = some true
+    · exact Or.inr (Or.inl ⟨((C17_reinstall_orphans_backup st cfg).1 hr).1, Or.inr ⟨cfg, rfl⟩⟩)
+    · left; rw [(C17_reinstall_orphans_backup st cfg).2 hr]
+  cases hs : st.bk.stored with
+  | some x => left; rw [step_keeps_stored st op x hs hdel (fun cfg h => hin ⟨cfg, h⟩)]
+  | none =>
+    by_cases hm : op.mayStore = true
+    · cases op with
+      | backup big =>
+        have ho := C17_backup_outcome st big
+        by_cases hr : (step st (.backup big)).2.res = some true
+        · have h1 := ho.1 hr
+          exact Or.inr (Or.inr ⟨rfl, h1.2.1, h1.2.2.1, Or.inl ⟨big, rfl⟩⟩)
+        · left; rw [ho.2.1 hr, hs]
+      | tick big d k =>
+        rcases tick_stored st big d k with h | h
+        · left; show (st.tick big d k).bk.stored = _; rw [h, hs]
+        · exact Or.inr (Or.inr ⟨rfl, h.2.1, h.2.2, Or.inr ⟨big, d, k, rfl⟩⟩)
+      | _ => simp [Op.mayStore] at hm
+    · have hm' : op.mayStore = false := by simpa using hm
+      left; rw [step_keeps_none st op hs hm']
+
+/-- **Repeated backups, every run.**  After a backup that reported success, along EVERY operation sequence that neither
+deletes the copy on the backup host nor re-installs the service - further backups in whatever health the file then has,
+damage, repairs, restores, ticks ... - every further `backup_database()` reports FAILURE, and the backup host's copy is still
+the health the database file had AT THE BACKUP THAT SUCCEEDED. (So "a backup reporting success" and "the copy has the health
+of that backup" never come apart; the unchanged code refuses, it does not overwrite.) -/
+theorem C17_repeated_backups_run (st : State) (ops : List Op) (big big' : Bool)
+    (hbk : (step st (.backup big)).2.res = some true)
+    (hops : ∀ op ∈ ops, op ≠ .bkDelete ∧ ∀ cfg, op ≠ .svcInstall cfg) :
+    (run (step st (.backup big)).1 ops).bk.stored = st.srv.file ∧ st.srv.file.isSome ∧
+    (step (run (step st (.backup big)).1 ops) (.backup big')).2.res ≠ some true ∧
+    (step (run (step st (.backup big)).1 ops) (.backup big')).1.bk.stored = st.srv.file := by
+  have h1 := (C17_backup_outcome st big).1 hbk
+  obtain ⟨x, hx⟩ := Option.isSome_iff_exists.mp h1.2.2.1
+  have hkeep := run_keeps_stored (step st (.backup big)).1 ops x (by rw [h1.2.1, hx]) hops
+  have ho := C17_backup_outcome (run (step st (.backup big)).1 ops) big'
+  have hrej := ho.2.2 (by rw [hkeep]; rfl)
+  exact ⟨by rw [hkeep, hx], h1.2.2.1, hrej, by rw [ho.2.1 hrej, hkeep, hx]⟩
+
+/-- non-vacuity: backup while CORRUPT, repair, a second backup while GOOD is REFUSED and the copy stays CORRUPT (the seeded C17-e
+tree answered True and kept CORRUPT); after deleting the copy a new backup stores GOOD -/
+example :
+    let st : State := { srv := { file := some .corrupt }, clients := [{}] }
+    (step st (.backup true)).2.res = some true ∧
+    (step (run (step st (.backup true)).1 [.fileRepair]) (.backup true)).2.res = some false ∧
+    (step (run (step st (.backup true)).1 [.fileRepair]) (.backup true)).1.bk.stored = some .corrupt ∧
+    (run st [.backup true, .fileRepair, .bkDelete, .backup true]).bk.stored = some .good := by decide
+
+end Primaite.Database
